@@ -94,6 +94,7 @@ def main(machine, argv=None):
     ap.add_argument('--no-evidence', action='store_true')
     ap.add_argument('--no-minimise', action='store_true')
     ap.add_argument('--dump-digests')
+    ap.add_argument('--dump-violations')
     ap.add_argument('--first', type=int, default=0, help='index of the first run')
     args = ap.parse_args(argv)
     faulthandler.enable()
@@ -168,6 +169,10 @@ def main(machine, argv=None):
     if args.dump_digests:
         with open(args.dump_digests, 'w') as f:
             json.dump({str(k): v for k, v in sorted(digests.items())}, f, indent=0)
+    if args.dump_violations:
+        with open(args.dump_violations, 'w') as f:
+            for r, v in violations:
+                f.write(json.dumps({'seed': r.get('seed'), 'v': v}, sort_keys=True, default=_json_default) + '\n')
     # ---- triage --------------------------------------------------------------
     known_hit = {}
     unknown = {}
